@@ -251,6 +251,15 @@ pub fn c03_families(tier: Tier) -> Vec<Family> {
         }
     }
     fams.push(Family { name: "ttl-store-over-predecessor".into(), programs: progs, opts: opts(if tier == Tier::Quick { 2 } else { 64 }, tier) });
+    // a pending delayed flush rewrites the expiry of every item while clients store and read: it
+    // touches deadlines, never values, flags or versions - what a store acknowledged (value, CAS) is
+    // what the next get reports, and a CAS store that lost stays lost
+    let mut progs = vec![];
+    for a in [vec![T::Set], vec![T::SetCur], vec![T::SetCur, T::Get], vec![T::Set, T::SetCur], vec![T::SetStale], vec![T::Get]] {
+        progs.push(mk(Init::Present, vec![a.clone(), vec![T::FlushLater]], K, K, keys.clone(), Policy::None));
+        progs.push(mk(Init::Present, vec![a.clone(), vec![T::FlushLater], vec![T::Get]], K, K, keys.clone(), Policy::None));
+    }
+    fams.push(Family { name: "store-vs-delayed-flush".into(), programs: progs, opts: opts(if tier == Tier::Quick { 2 } else { 64 }, tier) });
     fams
 }
 
@@ -325,6 +334,13 @@ pub fn c04_families(tier: Tier) -> Vec<Family> {
     for g in guarded {
         progs.push(mk(Init::Present, vec![vec![g], vec![T::Del, T::Set]], K, K, keys.clone(), Policy::None));
         progs.push(mk(Init::Present, vec![vec![g], vec![T::Del, T::Add]], K, K, keys.clone(), Policy::None));
+    }
+    // a delayed flush running next to a guarded command: it shortens lifetimes and leaves versions
+    // alone - the token the guarded command was acknowledged with is the item's token afterwards
+    // (the follow-up get and a second guarded command by the same client see it)
+    for g in guarded {
+        progs.push(mk(Init::Present, vec![vec![g], vec![T::FlushLater]], K, K, keys.clone(), Policy::None));
+        progs.push(mk(Init::Present, vec![vec![g, T::Get], vec![T::FlushLater]], K, K, keys.clone(), Policy::None));
     }
     fams.push(Family { name: "2x1/rmw-with-cas".into(), programs: progs, opts: opts(if tier == Tier::Quick { 3 } else { 64 }, tier) });
     fams
